@@ -217,6 +217,43 @@ def run_big(ck, prop, tier, vh, seed):
     ck.cov['all_honest_runs_at_range_edges'] = [list(b[:4]) for b in big]
 
 
+REFDEAL_NETS = [('qual', 3, 1, 0, -1), ('qual', 4, 2, 1, -1), ('qual', 4, 2, 3, 2), ('qual', 5, 3, 0, 4), ('qual', 6, 2, 5, 1), ('qual', 4, 1, 0, 3),
+                ('jf', 3, 1, 0, -1), ('jf', 4, 2, 2, -1), ('jf', 5, 3, 4, -1)]
+REFDEAL_SHAPES = ['generic', 'zero-const', 'zero-middle', 'zero-lead', 'root', 'equal', 'rminus1', 'two-zeros']
+
+
+def run_refdeal(ck, prop, tier, vh, seed, only_shapes=None):
+    """a protocol-following dealer implemented with reference arithmetic deals shaped polynomials (zero coefficients, a root at a
+    participant's point, ...) to real receivers: it must be qualified, and the receivers' keys must be the images of its vector"""
+    cases = []
+    reps = 1 if tier == 'quick' else 6
+    for r in range(reps):
+        for proto, n, t, dealer, silent in REFDEAL_NETS:
+            for shape in (only_shapes or REFDEAL_SHAPES):
+                if shape == 'root' and silent < 0:
+                    continue
+                for order in (0, 1, 2):
+                    cases.append({'id': 'rd-%d' % len(cases), 'proto': proto, 'n': n, 't': t, 'dealer': dealer, 'shape': shape, 'silent': silent,
+                                  'order': order, 'seed': vlib.jseed(seed, len(cases), 77)})
+    cp = os.path.join(vlib.subdir('scripts'), 'refdeal.ndjson')
+    with open(cp, 'w') as f:
+        for c in cases:
+            f.write(json.dumps(c) + '\n')
+    rp = os.path.join(vlib.subdir('results'), 'refdeal.ndjson')
+    vlib.run([vh, 'dkg-refdeal', '--in', cp, '--out', rp], check=True, timeout=3000)
+    n = 0
+    for line, c in zip(open(rp), cases):
+        r = json.loads(line)
+        n += 1
+        for v in r['violations']:
+            if v['property'] == prop:
+                ck.violation('%s:%s' % (prop, v['predicate']), '%s: %s' % (v['predicate'], v['detail']), {'family': 'dkg-refdeal', 'case': c})
+        ck.case('refdeal:' + vlib.digest([c['proto'], c['n'], c['t'], c['dealer'], c['shape'], c['silent'], c['order']]), c['shape'] != 'generic')
+    if n != len(cases):
+        raise vlib.Undecided('dkg-refdeal returned %d of %d results' % (n, len(cases)))
+    ck.cov['reference_dealer_runs'] = n
+
+
 def run_repo_tests(ck, vh, tier):
     """the repository's own DKG tests, recorded through the hook verifTraceDKG and validated against DKGNodeTrace.tla"""
     import re
@@ -272,7 +309,11 @@ def replay(prop, path):
     vh = vlib.build_vh()
     inp = os.path.join(vlib.subdir('replay'), 'in.ndjson')
     outp = os.path.join(vlib.subdir('replay'), 'out.ndjson')
-    if rp['family'] == 'dkg-big':
+    if rp['family'] == 'dkg-refdeal':
+        open(inp, 'w').write(json.dumps(rp['case']) + '\n')
+        vlib.run([vh, 'dkg-refdeal', '--in', inp, '--out', outp], check=True)
+        vs = json.loads(open(outp).readline())['violations']
+    elif rp['family'] == 'dkg-big':
         proto, n, t, d, mem = rp['case']
         open(inp, 'w').write(json.dumps({'id': 'replay', 'proto': proto, 'n': n, 't': t, 'dealer': d, 'members': mem, 'seed': 1}) + '\n')
         vlib.run([vh, 'dkg-big', '--in', inp, '--out', outp], check=True)
@@ -333,6 +374,7 @@ def run(prop, tier):
     run_fvss(ck, prop, tier, vh, seed)
     run_repo_tests(ck, vh, tier)
     run_big(ck, prop, tier, vh, seed)
+    run_refdeal(ck, prop, tier, vh, seed)
     all_results = []
     per_net = {}
     for (proto, n, t, dealer, byz) in NETS[tier]:
